@@ -59,6 +59,13 @@ pub struct Ctl {
     pub last_interrupted: bool,
     /// an underlying write was attempted after the last successful underlying flush
     pub dirty_since_flush: bool,
+    /// record (no faults needed): domain positions at which a fault could fire (calls made
+    /// while faults are enabled, i.e. by the library and not by the harness's own read-backs)
+    pub record_live: bool,
+    pub live_seqs: Vec<u64>,
+    /// ... and those among them that are writes into the header sector (offset < 512): the
+    /// moments at which a table grows or moves
+    pub header_write_seqs: Vec<u64>,
 }
 
 impl Default for Ctl {
@@ -77,6 +84,9 @@ impl Default for Ctl {
             chop_pos: 0,
             last_interrupted: false,
             dirty_since_flush: false,
+            record_live: false,
+            live_seqs: Vec::new(),
+            header_write_seqs: Vec::new(),
         }
     }
 }
@@ -103,6 +113,9 @@ impl Ctl {
         if self.in_domain(kind) {
             let seq = self.domain_seq;
             self.domain_seq += 1;
+            if self.record_live && self.faults_enabled {
+                self.live_seqs.push(seq);
+            }
             if self.faults_enabled && self.fault_at.contains(&seq) {
                 self.counters.faults_fired += 1;
                 self.fired.push((self.api_call, seq, kind));
@@ -254,6 +267,10 @@ impl Write for Io {
         if let Some(ctl) = &self.ctl {
             let mut c = ctl.lock().unwrap();
             c.dirty_since_flush = true;
+            if c.record_live && c.faults_enabled && self.pos < 512 && c.in_domain(CallKind::Write) {
+                let seq = c.domain_seq;
+                c.header_write_seqs.push(seq);
+            }
             if let Some(e) = c.tick(CallKind::Write) {
                 if c.fault_side_effects && self.file.is_none() {
                     // a prefix reached the medium before the error
